@@ -15,7 +15,7 @@ EXPLANATION = (
     "extents of the transform classes (compile-time witness).")
 NOT_DECIDED = "floating-point text formatting, identical navigation results"
 
-TECHNIQUE = ('writer/reader agreement of JSON keys (string-literal events with their callee context), field coverage, omission-guard vs default comparison, enum<->char table inversion, static_assert witness for transform extents; symbolic interpretation (lib/polyinterp.py) of the transform reader arm and constructor initialisers against the storage order written by data()')
+TECHNIQUE = ('writer/reader agreement of JSON keys (string-literal events with their callee context), field coverage, omission-guard vs default comparison, enum<->char table inversion, static_assert witness for transform extents; symbolic interpretation (lib/polyinterp.py) of the transform reader arm and constructor initialisers against the storage order written by data(); provenance of the stored transform (import_transform only); audited table of post-read overrides')
 
 UNITS = [
     "src/orange/OrangeInputIO.json.cc",
